@@ -23,7 +23,7 @@ RULE = (
     "history of length >= 2 whose minimum is not at the last position (best != last parameters)"
 )
 ASSUMPTIONS = [
-    "loss values are distinct (ties are outside the property's statement)",
+    "loss values are distinct (ties are outside the property's statement); two value maps: well separated, and a float64 plateau with values 1e-10 apart",
     "scripted loss reads the parameter version t written by a counting optimiser (+1 per update), so the "
     "returned t names the update count of the returned parameters",
     "TLC 1.8.0 is trusted to explore the TLA+ models exhaustively",
@@ -70,12 +70,13 @@ def enumerate_cases(tier, seed):
             pats = range(ld + 1) if kind != "var" else [0]
             for pat in pats:
                 for m in range(ld + 1):
-                    cases.append(
-                        {
-                            "id": f"direct|{kind}|rb={int(rb)}|pat={pat}|m={m}",
-                            "leg": "direct", "kind": kind, "rb": rb, "pat": pat, "m": m, "seed": seed,
-                        }
-                    )
+                    for vm in (0, 1):  # 0: well separated values; 1: distinct float64 values 1e-10 apart (a plateau)
+                        cases.append(
+                            {
+                                "id": f"direct|{kind}|rb={int(rb)}|pat={pat}|m={m}|values={'wide' if vm == 0 else 'tight'}",
+                                "leg": "direct", "kind": kind, "rb": rb, "pat": pat, "m": m, "seed": seed, "vm": vm,
+                            }
+                        )
     # --- TLA leg: verified model -> all maximal paths
     nodes, edges, st1 = run_tlc(
         "EarlyStop", {"L": lt}, ["AtMostMaxEpochs", "StopsExactlyWhenDocumented", "BestIsArgMin"], "es"
@@ -121,8 +122,8 @@ def finalize(tier, seed, cases, results):
 _ENV = {}
 
 
-def _env(seed):
-    if _ENV.get("seed") == seed:
+def _env(seed, vm=0):
+    if _ENV.get("seed") == seed and _ENV.get("vm") == vm:
         return _ENV
     import equinox as eqx
     import jax
@@ -130,6 +131,9 @@ def _env(seed):
     import optax
 
     off, scale = _value_map(seed)
+    if vm == 1:
+        # losses that are distinct in float64 but closer than float32 resolution: value = 1 + rank * 1e-10
+        off, scale = 1e10, 1e-10
 
     class ScriptModel(eqx.Module):
         t: jax.Array
@@ -152,7 +156,7 @@ def _env(seed):
         return jax.tree_util.tree_map(lambda g: jnp.ones_like(g), grads), state
 
     _ENV.update(
-        seed=seed, off=off, scale=scale, ScriptModel=ScriptModel, data_loss=data_loss, var_loss=var_loss,
+        seed=seed, vm=vm, off=off, scale=scale, ScriptModel=ScriptModel, data_loss=data_loss, var_loss=var_loss,
         opt=optax.GradientTransformation(_init, _update), jnp=jnp, jax=jax,
     )
     return _ENV
@@ -236,7 +240,7 @@ def _cmp(obs, exp):
 
 
 def run_case(case):
-    env = _env(case["seed"])
+    env = _env(case["seed"], case.get("vm", 0))
     off, scale = env["off"], env["scale"]
     val = lambda r: (r + off) * scale  # noqa: E731
     viols, outcomes, obs_all = [], {}, []
